@@ -37,7 +37,8 @@ def rand_threads(rng, n):
 
 
 def rand_record(rng, i, leading_zero=False):
-    ts = rng.getrandbits(48) | 1 if not leading_zero else (rng.getrandbits(40) << 8)
+    ts = rng.choice([rng.getrandbits(48), rng.getrandbits(48), rng.getrandbits(64), 2 ** 56 + rng.getrandbits(8), 2 ** 64 - 1]) | 1 \
+        if not leading_zero else (rng.getrandbits(40) << 8)
     if leading_zero and rng.random() < 0.3:
         ts = 0
     code = rng.choice([0x040c000c, 0x03010090, 0x07010004, 0x01400004, rng.getrandbits(32) & 0xfffffffc])
@@ -56,7 +57,8 @@ def gen_v2(rng, allow_leading_zero=False):
         recs[rng.randrange(1, m)] = bytes(64)          # a record whose every field is zero is a record like any other
     hdr_fill = rng.choice([b'\0', b'\xab'])
     return {'kind': 'v2', 'threads': threads, 'pad': pad, 'records': recs,
-            'data': D.build_v2(threads, pad, recs, hdr_fill=hdr_fill)}
+            'data': D.build_v2(threads, pad, recs, hdr_fill=hdr_fill, is64=rng.choice([1, 1, 0, 2 ** 32 - 1]),
+                               name_junk=rng.random() < 0.3)}
 
 
 def marker_teaser(rng, marker):
@@ -116,7 +118,7 @@ def gen_v3(rng, small=False):
     unaligned = bool(blocks) and rng.random() < 0.3
     header = D.v3_header({'cpus': rng.randint(1, 8)} if rng.random() < 0.7 else {'c': 'x' * rng.randint(0, 9)})
     data = D.build_v3(threads, chunks, blocks, filler=filler, junk=junk, tm_trailing=tm_trailing, between=between,
-                      header=header, last_block_unaligned=unaligned)
+                      header=header, last_block_unaligned=unaligned, name_junk=rng.random() < 0.3)
     return {'kind': 'v3', 'threads': threads, 'chunks': chunks, 'blocks': blocks, 'records': recs, 'data': data,
             'tm_trailing': tm_trailing, 'unaligned': unaligned}
 
